@@ -422,6 +422,10 @@ pub struct TypeSpec {
     /// ranks, Default expressions) as `$v:path` / `$v:expr` fragments, bit 3 = Into targets as `$g:ty`, bit 4 = field names as `$f:ident` (only with the real compiler; the in-process
     /// engine always sees the plain definition)
     pub via_macro: u8,
+    /// (prelude method, alias): the definition spells the method `alias`, which a `use super::prelude::method as alias;`
+    /// in `extra_items` brings into scope; the model and the observers keep using the prelude name (C19: user functions
+    /// named like identifiers of the generated code)
+    pub method_alias: Vec<(String, String)>,
     /// when the type-level Default expression is a bare literal that reaches the type through a user-written `From`
     /// impl: the value that impl produces (as an expression)
     pub type_expr_expect: Option<String>,
@@ -723,6 +727,14 @@ impl TypeSpec {
 
     /// `derive`: what goes into `#[derive(..)]`; `educe_attrs`: whether `#[educe]` attributes are kept
     pub fn render_def_with(&self, derive: &str, educe_attrs: bool) -> String {
+        let mut text = self.render_def_with_plain(derive, educe_attrs);
+        for (m, alias) in &self.method_alias {
+            text = replace_ident(&text, m, alias);
+        }
+        text
+    }
+
+    fn render_def_with_plain(&self, derive: &str, educe_attrs: bool) -> String {
         if self.via_macro != 0 && derive == "Educe" && educe_attrs {
             let body = self.render_def_inner(derive, educe_attrs, self.via_macro);
             let mut params: Vec<String> = Vec::new();
@@ -1226,6 +1238,31 @@ impl FieldSpec {
 }
 
 /// `crate::prelude::m_eq_le::<u8>` -> `m_eq_le`
+/// replace the identifier `from` (whole word, not a lifetime) by `to`
+pub fn replace_ident(text: &str, from: &str, to: &str) -> String {
+    let mut out = String::new();
+    let chars: Vec<char> = text.chars().collect();
+    let mut i = 0;
+    while i < chars.len() {
+        if chars[i].is_alphanumeric() || chars[i] == '_' {
+            let st = i;
+            while i < chars.len() && (chars[i].is_alphanumeric() || chars[i] == '_') {
+                i += 1;
+            }
+            let w: String = chars[st..i].iter().collect();
+            if w == from && (st == 0 || chars[st - 1] != '\'') {
+                out.push_str(to);
+            } else {
+                out.push_str(&w);
+            }
+        } else {
+            out.push(chars[i]);
+            i += 1;
+        }
+    }
+    out
+}
+
 pub fn method_base(m: &str) -> &str {
     let no_args = m.split("::<").next().unwrap_or(m);
     no_args.rsplit("::").next().unwrap_or(no_args)
